@@ -296,6 +296,25 @@ func (c *C02Case) Run() string {
 		if msg := compareAt(mat, want, bitEqVal); msg != "" {
 			return desc + ": Materialize(): " + msg
 		}
+		// the view copied into a fresh tensor (of the source's data order) has the same elements:
+		// the bulk paths trust the view's contiguity flag
+		if len(got) > 0 && d.Name != "unsafe.Pointer" {
+			var fresh *tensor.Dense
+			if c.L.IsCM() {
+				fresh = tensor.New(tensor.Of(d.T), tensor.WithShape(got...), tensor.AsFortran(nil))
+			} else {
+				fresh = tensor.New(tensor.Of(d.T), tensor.WithShape(got...))
+			}
+			var cerr error
+			if pan := try(func() { cerr = tensor.Copy(fresh, vd) }); pan != "" {
+				return desc + ": Copy of the view panicked: " + pan
+			}
+			if cerr == nil {
+				if msg := compareAt(fresh, want, bitEqVal); msg != "" {
+					return desc + ": Copy(fresh, view): " + msg
+				}
+			}
+		}
 		// aliasing probe: a write through the view lands on the source element start+c*step
 		if len(want.E) > 0 && d.Name != "unsafe.Pointer" {
 			for _, k := range []int{0, len(want.E) - 1} {
